@@ -15,7 +15,9 @@ import (
 	"bytes"
 	"fmt"
 	"math"
+	"os"
 	"sort"
+	"time"
 
 	"github.com/VKCOM/statshouse/internal/api"
 	dm "github.com/VKCOM/statshouse/internal/data_model"
@@ -121,6 +123,15 @@ func (x *mach) showB(ch *dm.ChUnique) string {
 
 // guard runs one op on the real code, turning a panic into "< panic"
 func (x *mach) guard(f func()) {
+	// watchdog: an op on the real code that does not return (e.g. a probe spinning in a table without a free slot) is a
+	// violation with this case as replay, not a hung check. Ops take milliseconds; 120 s is far beyond 10x the slowest.
+	wd := time.AfterFunc(120*time.Second, func() {
+		x.h.Obs("hang")
+		x.h.Viol("op-hang", "an operation on the real code did not return within 120 s (the last '>' line above)")
+		x.h.Flush()
+		os.Exit(0)
+	})
+	defer wd.Stop()
 	defer func() {
 		if r := recover(); r != nil {
 			x.h.Obs("panic")
@@ -228,6 +239,240 @@ func (x *mach) opUniq(r int, hashes []int64, c4 int, host int) {
 		x.h.Obs("%s", showU(&x.m[r].HLL))
 		x.h.Obs("%s", x.showB(&x.m[r].HLL))
 	})
+}
+
+// opVals: the event-level entries MultiValue.ApplyValues / ApplyValuesLegacy (hasPercentiles=false)
+func (x *mach) opVals(r int, legacy bool, vals []int, hv []int, hc []int, c4 int, total4 int, host int) {
+	d, clone := x.predictDraw(x.m[r].Value.Count(), float64(c4)/4)
+	if total4 <= 0 {
+		d = 0
+	}
+	x.h.Op("m vals %d %d %d %d %d %d %s %s %s", r, d, b01(legacy), c4, total4, host, verifx.List(vals), verifx.List(hv), verifx.List(scale4(hc)))
+	x.guard(func() {
+		before := *x.rng
+		fv := make([]float64, len(vals))
+		for i, v := range vals {
+			fv[i] = float64(v)
+		}
+		hist := make([][2]float64, len(hv))
+		for i := range hv {
+			hist[i] = [2]float64{float64(hv[i]), float64(hc[i])}
+		}
+		if legacy {
+			x.m[r].ApplyValuesLegacy(x.rng, hist, fv, float64(c4)/4, float64(total4)/4, tag(host), 0, false)
+		} else {
+			x.m[r].ApplyValues(x.rng, hist, fv, float64(c4)/4, float64(total4)/4, tag(host), 0, false)
+		}
+		x.drewObs(before, clone)
+		x.h.Obs("%s", showV(&x.m[r].Value))
+	})
+}
+
+func scale4(xs []int) []int {
+	ys := make([]int, len(xs))
+	for i, v := range xs {
+		ys[i] = 4 * v
+	}
+	return ys
+}
+
+// event: one agent-side contribution applied through the glue (AddCounterHost, AddValueCounterHost, ApplyValues,
+// ApplyValuesLegacy, ApplyUnique). expect* is the independent singleton view of the same event.
+type event struct {
+	kind   string // addc addv vals valsl uniq
+	v      int
+	c4     int
+	host   int
+	vals   []int
+	hv, hc []int
+	total4 int
+	hashes []int64
+}
+
+type evAgg struct {
+	cnt4, sum4, sq4 int64
+	set             bool
+	vmin, vmax      int64
+}
+
+func (a *evAgg) value(v int64) {
+	if !a.set || v < a.vmin {
+		a.vmin = v
+	}
+	if !a.set || v > a.vmax {
+		a.vmax = v
+	}
+	a.set = true
+}
+
+func (a *evAgg) add(e event) {
+	switch e.kind {
+	case "addc":
+		if e.c4 > 0 {
+			a.cnt4 += int64(e.c4)
+		}
+	case "addv":
+		if e.c4 > 0 {
+			a.cnt4 += int64(e.c4)
+		}
+		a.sum4 += int64(e.v) * int64(e.c4)
+		a.sq4 += int64(e.v) * int64(e.v) * int64(e.c4)
+		a.value(int64(e.v))
+	case "vals", "valsl":
+		if e.total4 <= 0 {
+			return
+		}
+		if e.c4 > 0 {
+			a.cnt4 += int64(e.c4)
+		}
+		var s4, q4 int64
+		for _, v := range e.vals {
+			s4 += 4 * int64(v)
+			q4 += 4 * int64(v) * int64(v)
+			a.value(int64(v))
+		}
+		for i, v := range e.hv {
+			s4 += 4 * int64(e.hc[i]) * int64(v)
+			q4 += 4 * int64(e.hc[i]) * int64(v) * int64(v)
+			a.value(int64(v))
+		}
+		if e.c4 != e.total4 {
+			s4 = s4 * int64(e.c4) / int64(e.total4)
+			q4 = q4 * int64(e.c4) / int64(e.total4)
+		}
+		a.sum4 += s4
+		a.sq4 += q4
+	case "uniq":
+		if e.c4 > 0 {
+			a.cnt4 += int64(e.c4)
+		}
+		var s4, q4 int64
+		for _, v := range e.hashes {
+			s4 += 4 * v
+			q4 += 4 * v * v
+			a.value(v)
+		}
+		n4 := int64(4 * len(e.hashes))
+		if int64(e.c4) != n4 {
+			s4 = s4 * int64(e.c4) / n4
+			q4 = q4 * int64(e.c4) / n4
+		}
+		a.sum4 += s4
+		a.sq4 += q4
+	}
+}
+
+func (x *mach) apply(reg int, e event) {
+	switch e.kind {
+	case "addc":
+		x.opAddC(reg, e.c4, e.host)
+	case "addv":
+		x.opAddV(reg, e.v, e.c4, e.host)
+	case "vals":
+		x.opVals(reg, false, e.vals, e.hv, e.hc, e.c4, e.total4, e.host)
+	case "valsl":
+		x.opVals(reg, true, e.vals, e.hv, e.hc, e.c4, e.total4, e.host)
+	case "uniq":
+		x.opUniq(reg, e.hashes, e.c4, e.host)
+	}
+}
+
+func genEvent(r *verifx.Rng) event {
+	e := event{host: pickHost(r)}
+	switch r.Pick(3, 3, 3, 2, 2) {
+	case 0:
+		e.kind, e.c4 = "addc", pickCnt4(r)
+		if e.c4 == 0 {
+			e.c4 = 4
+		}
+	case 1:
+		e.kind, e.v, e.c4 = "addv", pickVal(r), pickCnt4(r)
+	case 2, 3:
+		e.kind = "vals"
+		if r.Chance(1, 3) {
+			e.kind = "valsl"
+		}
+		t := 0
+		for i, n := 0, r.Range(0, 3); i < n; i++ {
+			e.vals = append(e.vals, pickVal(r))
+			t++
+		}
+		for i, n := 0, r.Range(0, 2); i < n || t == 0; i++ {
+			cc := r.Range(1, 3)
+			e.hv = append(e.hv, pickVal(r))
+			e.hc = append(e.hc, cc)
+			t += cc
+		}
+		e.total4 = 4 * t
+		e.c4 = e.total4
+		if (t == 1 || t == 2 || t == 4) && r.Chance(1, 2) {
+			e.c4 = 4 * r.Range(1, 20) // count differs from totalCount: sums are rescaled (exact for 1, 2, 4)
+		}
+	default:
+		e.kind = "uniq"
+		n := r.Range(1, 5)
+		for i := 0; i < n; i++ {
+			e.hashes = append(e.hashes, int64(r.Range(-30, 30)))
+		}
+		e.c4 = 4 * n
+		if (n == 1 || n == 2 || n == 4) && r.Chance(1, 2) {
+			e.c4 = 4 * r.Range(1, 20)
+		}
+	}
+	return e
+}
+
+// eventStream: a leaf built from agent-side events. Direct oracle: (1) the aggregate equals the sum of the singleton
+// contributions, (2) the same events applied in another order give the same count/min/max/sum/sumsq and unique estimate.
+func (x *mach) eventStream(r *verifx.Rng, reg int) {
+	h := x.h
+	n := r.Range(2, 5)
+	evs := make([]event, n)
+	var exp evAgg
+	counterFirst := false
+	for i := range evs {
+		evs[i] = genEvent(r)
+		if i == 0 && evs[i].kind == "addc" {
+			counterFirst = true
+		}
+		exp.add(evs[i])
+		h.Stat("event."+evs[i].kind, 1)
+	}
+	for _, e := range evs {
+		x.apply(reg, e)
+	}
+	got := leafInfo(&x.m[reg].Value)
+	if got.cnt4 != exp.cnt4 {
+		h.Viol("event-count-mismatch", "events %v: count*4=%d, the contributions sum to %d", kinds(evs), got.cnt4, exp.cnt4)
+	}
+	if got.set != exp.set || (exp.set && (got.vmin != exp.vmin || got.vmax != exp.vmax || got.sum4 != exp.sum4 || got.sq4 != exp.sq4)) {
+		h.Viol("event-value-mismatch", "events %v: set=%v min=%d max=%d sum*4=%d sumsq*4=%d, singleton contributions give set=%v %d %d %d %d", kinds(evs), got.set, got.vmin, got.vmax, got.sum4, got.sq4, exp.set, exp.vmin, exp.vmax, exp.sum4, exp.sq4)
+	}
+	// another order on a scratch register
+	p := perm(r, n)
+	x.opNew(15)
+	for _, k := range p {
+		x.apply(15, evs[k])
+	}
+	o := leafInfo(&x.m[15].Value)
+	if o.cnt4 != got.cnt4 || o.set != got.set || (got.set && (o.vmin != got.vmin || o.vmax != got.vmax || o.sum4 != got.sum4 || o.sq4 != got.sq4)) {
+		h.Viol("event-order-dependent", "events %v applied in order %v: count*4=%d min=%d max=%d sum*4=%d sumsq*4=%d, in the given order %d %d %d %d %d", kinds(evs), p, o.cnt4, o.vmin, o.vmax, o.sum4, o.sq4, got.cnt4, got.vmin, got.vmax, got.sum4, got.sq4)
+	}
+	if x.m[15].HLL.Size(false) != x.m[reg].HLL.Size(false) {
+		h.Viol("unique-merge-order", "events %v: unique estimate %d in order %v, %d in the given order", kinds(evs), x.m[15].HLL.Size(false), p, x.m[reg].HLL.Size(false))
+	}
+	if counterFirst {
+		h.NonTrivial("counter-before-first-value")
+		h.Stat("event.stream_counter_first", 1)
+	}
+}
+
+func kinds(evs []event) []string {
+	ks := make([]string, len(evs))
+	for i, e := range evs {
+		ks[i] = e.kind
+	}
+	return ks
 }
 
 func (x *mach) opIns(r int, val uint64) {
@@ -505,15 +750,8 @@ func (x *mach) genLeaf(r *verifx.Rng, reg int, sharedHashes []uint64) {
 		x.opCnt(reg, pickCnt4(r), pickHost(r))
 		h.Stat("leaf.simple_counter", 1)
 	case 2:
-		n := r.Range(1, 5)
-		for i := 0; i < n; i++ {
-			if r.Chance(1, 4) {
-				x.opAddC(reg, pickCnt4(r), pickHost(r))
-			} else {
-				x.opAddV(reg, pickVal(r), pickCnt4(r), pickHost(r))
-			}
-		}
-		h.Stat("leaf.add_stream", 1)
+		x.eventStream(r, reg)
+		h.Stat("leaf.event_stream", 1)
 	default:
 		l := rawLeaf{cnt4: pickCnt4(r), ch: pickHost(r), set: b01(r.Intn(4) != 0), minh: pickHost(r), maxh: pickHost(r)}
 		a, b := pickVal(r), pickVal(r)
@@ -801,6 +1039,20 @@ func (x *mach) caseTs(r *verifx.Rng) {
 	leaves := make([]int, n)
 	ls := make([]tsLeaf, n)
 	allStr := true
+	// the query selects a subset of the columns; unselected columns are zero in EVERY row (seriesQuery.valuesAt)
+	var sel [8]bool // min max sum count sumsq cardinality minHost maxHost
+	allCols := r.Chance(1, 3)
+	nsel := 0
+	for c := range sel {
+		sel[c] = allCols || r.Chance(1, 2)
+		if sel[c] {
+			nsel++
+		}
+	}
+	if !sel[3] {
+		h.Stat("ts.case_without_count", 1)
+	}
+	h.Stat(fmt.Sprintf("ts.selected_columns.%d", nsel), 1)
 	for i := 0; i < n; i++ {
 		leaves[i] = i
 		x.opNew(i)
@@ -829,6 +1081,30 @@ func (x *mach) caseTs(r *verifx.Rng) {
 		if r.Chance(1, 6) { // rows whose host value is not the row's min/max (the code keeps them independent)
 			l.minv, l.sminv = pickVal(r), pickVal(r)
 		}
+		if !sel[0] {
+			l.min = 0
+		}
+		if !sel[1] {
+			l.max = 0
+		}
+		if !sel[2] {
+			l.sum = 0
+		}
+		if !sel[3] {
+			l.count = 0
+		}
+		if !sel[4] {
+			l.sq = 0
+		}
+		if !sel[5] {
+			l.card = 0
+		}
+		if !sel[6] {
+			l.mina, l.minv, l.smina, l.sminv = 0, 0, 0, 0
+		}
+		if !sel[7] {
+			l.maxa, l.maxv, l.smaxa, l.smaxv = 0, 0, 0, 0
+		}
 		if l.smina == 0 || l.smaxa == 0 {
 			allStr = false
 		}
@@ -847,8 +1123,24 @@ func (x *mach) caseTs(r *verifx.Rng) {
 		x.evalT(t, 4) // rows t4..t7 are work registers (n ≤ 4 leaves use t0..t3; right depth ≤ 3)
 		res = append(res, tres{t.String(), x.t[4].VerifC04Row(), x.t[4].VerifC04Unique().Size(false)})
 	}
+	emin, emax, esum, ecount, esq, ecard := ls[0].min, ls[0].max, 0, 0, 0, 0
+	for _, l := range ls {
+		if l.min < emin {
+			emin = l.min
+		}
+		if l.max > emax {
+			emax = l.max
+		}
+		esum, ecount, esq, ecard = esum+l.sum, ecount+l.count, esq+l.sq, ecard+l.card
+	}
 	for i, a := range res {
 		g := a.row
+		if g.Min != float64(emin) || g.Max != float64(emax) {
+			h.Viol("ts-minmax-mismatch", "tsValues.merge %s (selected columns %v): min=%v max=%v, the rows have least min %d and greatest max %d", a.prog, sel, g.Min, g.Max, emin, emax)
+		}
+		if g.Sum != float64(esum) || g.Count != float64(ecount) || g.SumSquare != float64(esq) || g.Cardinality != float64(ecard) {
+			h.Viol("ts-sum-mismatch", "tsValues.merge %s (selected columns %v): sum=%v count=%v sumsq=%v card=%v, the rows add up to %d %d %d %d", a.prog, sel, g.Sum, g.Count, g.SumSquare, g.Cardinality, esum, ecount, esq, ecard)
+		}
 		if i > 0 {
 			b := res[0].row
 			if g.Min != b.Min || g.Max != b.Max || g.Sum != b.Sum || g.Count != b.Count || g.SumSquare != b.SumSquare || g.Cardinality != b.Cardinality {
